@@ -6,6 +6,9 @@ set -u
 V="$(cd "$(dirname "$0")/.." && pwd)"
 cd "$V"
 NAMES="${*:-$(ls seeded | grep -v MATRIX)}"
+# freeze the harness sources for the duration of the sweep
+rm -rf /tmp/verif-mw/src-snap; mkdir -p /tmp/verif-mw; cp -r "$V/dst/src" /tmp/verif-mw/src-snap
+export VERIF_SRC=/tmp/verif-mw/src-snap
 for n in $NAMES; do
   d="seeded/$n"; [ -f "$d/patch.diff" ] || continue
   ids=$(python3 -c "import json;m=json.load(open('$d/meta.json'));print(' '.join([m['property']]+m.get('also_run',[])))")
